@@ -139,6 +139,7 @@ def closure(case: dict, start: Optional[int] = None,
     if start_tasks is not None:
         seeds = {(n, int(p)) for p, n in (x.split('/', 1)
                                           for x in start_tasks)}
+    spawned: Set[Tuple[str, int]] = set()
     changed = True
     while changed:
         changed = False
@@ -153,13 +154,19 @@ def closure(case: dict, start: Optional[int] = None,
                 # start tasks: only the seeds, and later parentless
                 # instances of tasks already in the run set, auto-spawn
                 parentless = ((t, p) in seeds or (
-                    parentless and any((t, q) in run for q in range(cut, p))))
-            spawned = parentless or any(sat_atom(a, p) for a in rel)
+                    parentless and any((t, q) in spawned
+                                       for q in range(cut, p))))
+            is_spawned = parentless or any(sat_atom(a, p) for a in rel)
             if (t, p) in seq_prev and (
                     seq_prev[(t, p)] + ('succeeded',)) in facts:
-                spawned = True
-            if not spawned:
+                is_spawned = True
+            if not is_spawned:
                 continue
+            if (t, p) not in spawned:
+                # in the pool (even if it then waits for ever): its next
+                # parentless instance is spawned from it
+                spawned.add((t, p))
+                changed = True
             ok = all(eval_expr(ar, p, facts, cut) for ar in arrows)
             if (t, p) in seq_prev:
                 ok = ok and (seq_prev[(t, p)] + ('succeeded',)) in facts
